@@ -32,7 +32,7 @@ pub fn dup3(old: Fd, new: Fd, cloexec: bool) -> crate::Result<()> {
         };
         // Trusting the syscall [API](https://man7.org/linux/man-pages/man2/dup.2.html#RETURN_VALUE)
         #[expect(clippy::cast_possible_wrap, clippy::cast_possible_truncation)]
-        if res as i32 == Errno::EBUSY.raw() {
+        if res as i32 == -Errno::EBUSY.raw() {
             continue;
         }
         bail_on_below_zero!(res, "`DUP3` syscall failed");
